@@ -77,6 +77,12 @@ def assigned (asg : AL ValId Reg) (p : Prog) : Bool :=
 def respectsPre (pre asg : AL ValId Reg) : Bool :=
   pre.all fun kv => AL.get asg kv.1 == some kv.2
 
+/-- reserved registers are respected: a register that an operation of the function declares as
+excluded holds a value only if the input itself puts a value there (the value is pre-assigned, or
+tied to a pre-assigned one — the tie itself is checked by `opOk`) -/
+def exclOk (excl : List Reg) (pre asg : AL ValId Reg) : Bool :=
+  asg.all fun kv => !excl.contains kv.2 || pre.any fun pv => pv.2 == kv.2
+
 /-! ## The allocator model -/
 
 structure Cfg where
@@ -184,10 +190,29 @@ def allocate (c : Cfg) (pool : List Reg) (pre : AL ValId Reg) (p : Prog) : Excep
     | .error e => .error e
     | .ok s' => .ok s'.asg
 
+/-- `allocate_func` with the registers that operations of the function declare as excluded
+(`RegisterAllocatableOperation.all_excluded_registers`, see `XdslModel/Excluded.lean` for the walk
+that collects them): `for pa_reg in preallocated | excluded: exclude_register(pa_reg)` removes them
+from the available list and from the allocatable set of the freshly built stack. -/
+def initStX (pool excl : List Reg) (pre : AL ValId Reg) (p : Prog) : St :=
+  let s := initSt pool pre p
+  { s with avail := s.avail.filter (fun r => !excl.contains r),
+           allocatable := s.allocatable.filter (fun r => !excl.contains r) }
+
+def allocateX (c : Cfg) (pool excl : List Reg) (pre : AL ValId Reg) (p : Prog) :
+    Except Err (AL ValId Reg) :=
+  let Zc := zeroConsts p.ops
+  match foldE (allocValue c Zc) (initStX pool excl pre p) p.rets with
+  | .error e => .error e
+  | .ok s =>
+    match foldE (allocOp c Zc) s p.ops.reverse with
+    | .error e => .error e
+    | .ok s' => .ok s'.asg
+
 /-! ## Line protocol
 
-`alloc    <prog> ; pre v r .. ; pool r .. ; opt z inf infbase`
-`validate <prog> ; pre .. ; pool .. ; opt .. ; asg v r ..`
+`alloc    <prog> ; pre v r .. ; pool r .. ; opt z inf infbase [; excl r ..]`
+`validate <prog> ; pre .. ; pool .. ; opt .. ; asg v r .. [; excl r ..]`
 `<prog>` = `args a .. ; op zk code imm i v .. o v .. p vin vout .. ; .. ; ret v ..` -/
 
 def splitOn (sep : String) : List String → List (List String)
@@ -228,6 +253,8 @@ structure Query where
   pool : List Reg := []
   cfg : Cfg := { z := false, allowInf := false, infBase := 1000 }
   asg : AL ValId Reg := []
+  /-- registers declared as excluded by operations of the function -/
+  excl : List Reg := []
 
 def parseSection (q : Query) (ws : List String) : Option Query :=
   match ws with
@@ -242,6 +269,7 @@ def parseSection (q : Query) (ws : List String) : Option Query :=
     let base ← base.toNat?
     pure { q with cfg := { z := z != 0, allowInf := inf != 0, infBase := base } }
   | "asg" :: r => ((nats r).bind pairs).map fun a => { q with asg := a }
+  | "excl" :: r => (nats r).map fun a => { q with excl := a }
   | _ => none
 
 def parseQuery (ws : List String) : Option Query :=
@@ -261,7 +289,7 @@ def lineStep (s : Unit) (line : String) : Unit × String :=
     match parseQuery r with
     | none => (s, "bad-op")
     | some q =>
-      match allocate q.cfg q.pool q.pre q.prog with
+      match allocateX q.cfg q.pool q.excl q.pre q.prog with
       | .ok a => (s, "alloc " ++ showAsg a)
       | .error .outOfRegisters => (s, "raise OutOfRegisters")
       | .error .diagnostic => (s, "raise DiagnosticException")
@@ -271,6 +299,7 @@ def lineStep (s : Unit) (line : String) : Unit × String :=
     | some q =>
       if !assigned q.asg q.prog then (s, "invalid unassigned-value")
       else if !respectsPre q.pre q.asg then (s, "invalid pre-assigned-register-changed")
+      else if !exclOk q.excl q.pre q.asg then (s, "invalid reserved-register-handed-out")
       else if validate q.cfg.z (allocOf q.asg) q.prog then (s, "valid")
       else (s, "invalid interference")
   | _ => (s, "bad-op")
